@@ -1352,6 +1352,7 @@ int32_t tls13ParseServerHello(ssl_t *ssl,
     unsigned char compressionMethod;
     uint16_t tmp_u16;
     uint16_t legacy_version;
+    psBool_t isHrr;
 
     psTracePrintHsMessageParse(ssl, SSL_HS_SERVER_HELLO);
 
@@ -1469,7 +1470,8 @@ int32_t tls13ParseServerHello(ssl_t *ssl,
     }
 
     rc = tls13ParseServerHelloExtensions(ssl, pb);
-    if (rc < 0)
+    isHrr = (rc == SSL_ENCODE_RESPONSE && ssl->tls13IncorrectDheKeyShare);
+    if (rc < 0 && !isHrr)
     {
         /* In addition to failure cases, we can end up here
            if we negotiated TLS <1.3. In that case, return
@@ -1479,7 +1481,11 @@ int32_t tls13ParseServerHello(ssl_t *ssl,
         return rc;
     }
 
-    /* Now we can do the postponed checks. */
+    /* Now we can do the postponed checks. They apply to a
+       HelloRetryRequest, too: the Hash of the cipher suite it carries
+       is the one the synthetic message_hash that replaces ClientHello1
+       in the Transcript-Hash is computed with (RFC 8446, 4.4.1), so
+       ssl->cipher must be known before tls13TranscriptHashReinit. */
     if ((ssl->cipher = sslGetCipherSpec(ssl, cipher)) == NULL)
     {
         ssl->err = SSL_ALERT_ILLEGAL_PARAMETER;
@@ -1492,6 +1498,11 @@ int32_t tls13ParseServerHello(ssl_t *ssl,
         return MATRIXSSL_ERROR;
     }
 
+    if (isHrr)
+    {
+        /* Trigger sending of ClientHello2. */
+        return SSL_ENCODE_RESPONSE;
+    }
     return MATRIXSSL_SUCCESS;
 }
 
